@@ -411,6 +411,17 @@ func (r *Result) mockRules(mk *Mock) {
 				r.add(rule, role, f.Decl.Pos(), true, "")
 			}
 		}
+		{
+			seen := map[evKind]bool{}
+			for _, e := range fl.allEvents() {
+				seen[e.kind] = true
+			}
+			for kind, rule := range map[evKind]string{evDefer: "K-LOCK/defer", evGo: "K-FLOW/go", evFuncLit: "K-FLOW/funclit", evChan: "K-FLOW/chan"} {
+				if !seen[kind] {
+					r.add(rule, role+":none", f.Decl.Pos(), true, "")
+				}
+			}
+		}
 		for _, e := range fl.allEvents() {
 			switch e.kind {
 			case evDefer:
